@@ -323,6 +323,20 @@ impl Database {
         let row_id = self.shared.next_row_id.fetch_add(1, Ordering::Relaxed);
         let row_key = Self::generate_row_key(row_id);
 
+        if in_transaction {
+            if let Some(ref mut txn) = *self.active_txn.lock() {
+                txn.add_write_entry(crate::mvcc::WriteEntry {
+                    table_id: plan.table_id as u32,
+                    key: row_key.to_vec(),
+                    page_id: 0,
+                    offset: 0,
+                    undo_page_id: None,
+                    undo_offset: None,
+                    is_insert: true,
+                });
+            }
+        }
+
         #[cfg(feature = "timing")]
         let btree_start = std::time::Instant::now();
 
